@@ -501,7 +501,7 @@ int main() {
       w = w.substr(0, w.find('\n'));
       std::cout << "ERR:internal " << w << "\n";
       std::cout.flush();
-      _exit(3);
+      _exit(3);   // the session is unusable after an internal_error; run_sharded resumes after this case
     } catch (std::exception& e) {
       std::cout << "ERR:harness " << e.what() << "\n";
     }
